@@ -354,4 +354,158 @@ theorem from_trusted_example :
     ∧ isOk (construct exO exOuter [("kind", .enumv "Color" "RED"), ("items", .list []), ("flags", .list [.bool false])]) = true := by
   decide
 
+/-! ## 3. fast serialization -/
+
+/-- the statement at full strength: every class tree (all classes FastSerializable, no mapper) for
+    which `create_serializer` succeeds, every well-formed instance, both flags -/
+def fast_statement : Prop :=
+  ∀ (O : Oracles) (cls : FieldDecl) (x : PyVal) (compact : Bool),
+    wfDecl cls = true → createOk noMappers [] cls = true → wellFormed O cls x = true →
+    fastSerialize noMappers [] false compact cls x = serializeCompact O compact cls x
+
+/-- **C10 (fast serialization), proved part**: for every class in the region `fsafeCls` (scalars,
+    Enum, Array / Deque / Set / Map / fixed-length Tuple over such fields at any depth, nested
+    FastSerializable classes, Optional) and every instance of the stored shape (`fwf`), the
+    installed `serialize()` returns the document the regular serialization of the identically
+    declared class returns (for the instance with its attributes listed in field order: the
+    order of `__dict__` / of the document's keys is not part of the claim). -/
+theorem fast_equiv_partial (O : Oracles) (cls : FieldDecl) (x : PyVal)
+    (hs : fsafeCls [] cls = true) (hw : fwf O cls x = true) :
+    fastSerialize noMappers [] false false cls x = serialize O cls (canonV cls x) :=
+  fast_equiv_core O cls x hs hw
+
+/-- `compact=True` on both sides, for the classes the regular path compacts (one field, required,
+    no additional properties) holding a value -/
+theorem fast_equiv_compact_partial (O : Oracles) (c : ClassOpts) (n : String) (f : FieldDecl)
+    (defaults : List (String × PyVal)) (cn : String) (attrs : List (String × PyVal)) (v : PyVal)
+    (hs : fsafeCls [] (.struct c [(n, f)] defaults) = true)
+    (hw : fwf O (.struct c [(n, f)] defaults) (.inst cn attrs) = true)
+    (hreq : c.required = [n]) (haddl : c.addl = false)
+    (hv : lookup n attrs = some v) (hvn : v.isNone = false) :
+    fastSerialize noMappers [] false true (.struct c [(n, f)] defaults) (.inst cn attrs)
+      = serializeCompact O true (.struct c [(n, f)] defaults)
+          (canonV (.struct c [(n, f)] defaults) (.inst cn attrs)) :=
+  fast_compact_core O c n f defaults cn attrs v hs hw hreq haddl hv hvn
+
+/-- `serialize_none=True` only adds explicit nulls: removing them gives the `serialize_none=False`
+    document (for every class, instance and set of non-fast classes; no region needed) -/
+theorem fast_serialize_none (NF : List String) (cls : FieldDecl) (x : PyVal) :
+    fastSerialize noMappers NF false false cls x
+      = bindE (fastSerialize noMappers NF true false cls x) fun d =>
+          match d with
+          | .dict r => .ok (.dict (r.filter fun kv => !kv.2.isNone))
+          | w => .ok w :=
+  fast_serialize_none_core NF cls x
+
+/-! ### counterexamples: the known findings of fast serialization -/
+
+/-- finding `fast:tuple-index`: `Tuple[Integer]` keeps `items = [Integer]` and indexes it by
+    position: a two-element tuple raises IndexError -/
+def cxTuple : FieldDecl := mkCls "A" ["t"] [("t", .tupleOf (.integer {}) false)]
+theorem counterexample_fast_tuple_index :
+    createOk noMappers [] cxTuple = true
+    ∧ wellFormed exO cxTuple (.inst "A" [("t", .tuple [.int 1, .int 2])]) = true
+    ∧ isOk (serialize exO cxTuple (.inst "A" [("t", .tuple [.int 1, .int 2])])) = true
+    ∧ isErr (fastSerialize noMappers [] false false cxTuple (.inst "A" [("t", .tuple [.int 1, .int 2])])) = true := by
+  decide
+
+/-- finding `fast:positional-index`: a positional Array with surplus elements raises IndexError -/
+def cxPos : FieldDecl := mkCls "A" ["t"] [("t", .seqPos .list [.integer {}] true {})]
+theorem counterexample_fast_positional_index :
+    createOk noMappers [] cxPos = true
+    ∧ wellFormed exO cxPos (.inst "A" [("t", .list [.int 1, .str "x"])]) = true
+    ∧ isOk (serialize exO cxPos (.inst "A" [("t", .list [.int 1, .str "x"])])) = true
+    ∧ isErr (fastSerialize noMappers [] false false cxPos (.inst "A" [("t", .list [.int 1, .str "x"])])) = true := by
+  decide
+
+/-- finding `fast:compact-conditions`: `set_compact_wrapper` compacts every one-field class; the
+    regular path only one whose field is required and that forbids additional properties -/
+def cxCompact : FieldDecl := mkCls "A" ["a"] [("a", .integer {})]
+def isDictDoc : R PyVal → Bool | .ok (.dict _) => true | _ => false
+theorem counterexample_fast_compact_conditions :
+    createOk noMappers [] cxCompact = true
+    ∧ isDictDoc (serializeCompact exO true cxCompact (.inst "A" [("a", .int 1)])) = true
+    ∧ isDictDoc (fastSerialize noMappers [] false true cxCompact (.inst "A" [("a", .int 1)])) = false := by
+  decide
+
+/-- finding `fast:inline-none-keys`: `StructureReference.serialize` emits every field, unset ones
+    as null; the regular path drops them -/
+def cxInline : FieldDecl :=
+  mkCls "A" ["s"] [("s", .struct { name := "Inl", required := ["x"], inline := true }
+                          [("x", .integer {}), ("y", str0)] [])]
+def cxInlineX : PyVal := .inst "A" [("s", .inst "Inl" [("x", .int 1)])]
+def sizeAt (k : String) (r : R PyVal) : Nat :=
+  match r with
+  | .ok (.dict kvs) => (kvs.filterMap fun kv => match kv.1, kv.2 with
+      | .str s, .dict inner => if s == k then some inner.length else none
+      | _, _ => none).foldl (· + ·) 0
+  | _ => 0
+theorem counterexample_fast_inline_none_keys :
+    createOk noMappers [] cxInline = true
+    ∧ sizeAt "s" (serialize exO cxInline cxInlineX) = 1
+    ∧ sizeAt "s" (fastSerialize noMappers [] false false cxInline cxInlineX) = 2 := by
+  decide
+
+/-- finding `fast:untyped-raw`: an untyped Deque is returned as the live deque object, not a list -/
+def cxDeque : FieldDecl := mkCls "A" ["q"] [("q", .seqAny .deque {})]
+def fieldIsDeque (r : R PyVal) : Bool :=
+  match r with
+  | .ok (.dict [(_, .deque _)]) => true
+  | _ => false
+theorem counterexample_fast_untyped_raw :
+    createOk noMappers [] cxDeque = true
+    ∧ fieldIsDeque (serialize exO cxDeque (.inst "A" [("q", .deque [.int 1])])) = false
+    ∧ fieldIsDeque (fastSerialize noMappers [] false false cxDeque (.inst "A" [("q", .deque [.int 1])])) = true := by
+  decide
+
+/-- finding `fast:extras-dropped` (documented limitation): an attribute that is not a declared
+    field is serialized by the regular path only -/
+theorem counterexample_fast_extras :
+    createOk noMappers [] cxCompact = true
+    ∧ wellFormed exO cxCompact (.inst "A" [("a", .int 1), ("zz", .int 2)]) = true
+    ∧ docHas "zz" (fun _ => true) (serialize exO cxCompact (.inst "A" [("a", .int 1), ("zz", .int 2)])) = true
+    ∧ docHas "zz" (fun _ => true)
+        (fastSerialize noMappers [] false false cxCompact (.inst "A" [("a", .int 1), ("zz", .int 2)])) = false := by
+  decide
+
+theorem fast_statement_false : ¬ fast_statement := by
+  intro h
+  rcases counterexample_fast_tuple_index with ⟨h1, h2, h3, h4⟩
+  have := h exO cxTuple (.inst "A" [("t", .tuple [.int 1, .int 2])]) false (by decide) h1 h2
+  simp only [serializeCompact, cxTuple, mkCls, Bool.false_and, Bool.false_eq_true, if_false] at this
+  simp only [cxTuple, mkCls] at h3 h4
+  rw [this] at h4
+  cases hs : serialize exO (.struct { name := "A", required := ["t"], accepts := ["A"] }
+      [("t", .tupleOf (.integer {}) false)] []) (.inst "A" [("t", .tuple [.int 1, .int 2])]) with
+  | ok j => rw [hs] at h4; cases h4
+  | error e => rw [hs] at h3; cases h3
+
+/-! ### non-vacuity of `fast_equiv_partial` -/
+
+def exFastInner : FieldDecl :=
+  .struct { name := "Inner", required := ["id"], accepts := ["Inner"] }
+    [("id", .integer {}), ("tags", .setOf false (.enumCls "Color" ["RED", "BLUE"]) {}),
+     ("note", .anyOf [.string none none none, .noneF])] []
+def exFastOuter : FieldDecl :=
+  .struct { name := "Outer", required := ["items"], accepts := ["Outer"] }
+    [("items", .seqOf .list exFastInner {}), ("m", .mapOf (.string none none none) (.float {}) {}),
+     ("pair", .tuplePos [.integer {}, .boolean] false), ("best", .anyOf [.noneF, exFastInner]),
+     ("q", .seqOf .deque (.number {}) {})] []
+def exFastX : PyVal :=
+  .inst "Outer" [("best", .inst "Inner" [("note", .str "n"), ("id", .int 7)]),
+                 ("items", .list [.inst "Inner" [("id", .int 1), ("tags", .set false [.enumv "Color" "RED"])]]),
+                 ("m", .dict [(.str "k", .float ⟨1, 2⟩)]), ("pair", .tuple [.int 1, .bool true]),
+                 ("q", .deque [.int 1, .float ⟨3, 2⟩])]
+
+/-- a class tree with nested classes, Array / Set / Map / Tuple / Deque, Enum and both Optional
+    shapes, with attributes NOT in field order, meets the hypotheses; the fast document is a
+    five-key JSON object -/
+theorem fast_equiv_example :
+    fsafeCls [] exFastOuter = true ∧ fwf exO exFastOuter exFastX = true
+    ∧ createOk noMappers [] exFastOuter = true ∧ wellFormed exO exFastOuter exFastX = true
+    ∧ (match fastSerialize noMappers [] false false exFastOuter exFastX with
+        | .ok (.dict r) => r.length == 5 && isJson (.dict r)
+        | _ => false) = true := by
+  decide
+
 end Typedpy.C10
